@@ -45,3 +45,7 @@ TEXT = {'technique': 'model-based property testing (rapid) of key/value historie
  'level_note': 'The harness controls delays around every data-scope call and GOMAXPROCS but not the interleaving inside sync.RWMutex. Exclusion is '
                'judged by an order check on atomics, never by timing; a hang is inconclusive.',
  'design_ref': 'DESIGN.md 4/C13'}
+
+# native coverage-guided campaign over the rapid generator (hx.FuzzRapid), thorough tier only
+CHECK['tiers']['thorough'].append({'test': '^$', 'fuzz': '^FuzzSeq$', 'fuzztime': '90s', 'gomaxprocs': 4, 'timeout': 400})
+TEXT['technique'] += '; thorough adds a native coverage-guided go fuzzing campaign over the same generator (rapid.MakeFuzz)'
